@@ -38,14 +38,14 @@ def shard_setup(obs) -> None:
 
 
 def gen_cases(tier: str, seed: int):
-    n = {"quick": 400, "thorough": 5000}[tier]
+    n = {"quick": 400, "thorough": 30000}[tier]
     maxlen = {"quick": 12, "thorough": 40}[tier]
     rng = np.random.default_rng([seed, 18])
     for i in range(n):
         k = zoo.SYSTEMS[i % len(zoo.SYSTEMS)]
         spec = zoo.random_sys_spec(rng, kinds=(k,), dim_range=(2, 4))
         yield {"kind": "history", "spec": spec, "length": int(rng.integers(4, maxlen + 1)), "seed": [seed, int(rng.integers(0, 2**31))]}
-    m = {"quick": 120, "thorough": 1500}[tier]
+    m = {"quick": 120, "thorough": 8000}[tier]
     for i in range(m):
         k = ["euclidean", "gaussian"][i % 2]
         spec = zoo.random_sys_spec(rng, kinds=(k,), dim_range=(1, 4))
